@@ -890,77 +890,55 @@ func c04SyncCommit(p *Prog, r *Report, rule string) {
 // KeyCopy / ValueCopy are used.
 func c19IteratorCopies(p *Prog, r *Report, rule string) {
 	n := 0
-	// parameters that receive an iterator item from a caller in the package (a per-record helper)
-	itemParams := map[types.Object]bool{}
-	for pass := 0; pass < 3; pass++ {
-		for _, k := range sortedFuncKeys(p) {
-			fi := p.Funcs[k]
-			if shortPath(fi.Pkg.PkgPath) != pkgBadger || fi.Decl.Body == nil {
-				continue
-			}
-			info := fi.Pkg.TypesInfo
-			local := map[types.Object]bool{}
-			ast.Inspect(fi.Decl.Body, func(x ast.Node) bool {
-				if as, ok := x.(*ast.AssignStmt); ok && len(as.Lhs) == 1 && len(as.Rhs) == 1 {
-					if c, ok := ast.Unparen(as.Rhs[0]).(*ast.CallExpr); ok && isBadgerMethod(info, c, "Iterator", "Item") {
-						if o := objOf(info, as.Lhs[0]); o != nil {
-							local[o] = true
-						}
-					}
-				}
-				return true
-			})
-			ast.Inspect(fi.Decl.Body, func(x ast.Node) bool {
-				c, ok := x.(*ast.CallExpr)
-				if !ok {
-					return true
-				}
-				callee := p.staticCallee(fi.Pkg, c)
-				if callee == nil || callee.Pkg != fi.Pkg {
-					return true
-				}
-				po := paramObjs(callee)
-				for idx, a := range argExprs(c, callee) {
-					isIt := false
-					if o := objOf(info, a); o != nil && (local[o] || itemParams[o]) {
-						isIt = true
-					}
-					if ac, ok := ast.Unparen(a).(*ast.CallExpr); ok && isBadgerMethod(info, ac, "Iterator", "Item") {
-						isIt = true
-					}
-					if isIt && po[idx] != nil {
-						itemParams[po[idx]] = true
-					}
-				}
-				return true
-			})
-		}
-	}
 	for _, k := range sortedFuncKeys(p) {
 		fi := p.Funcs[k]
 		if shortPath(fi.Pkg.PkgPath) != pkgBadger || fi.Decl.Body == nil {
 			continue
 		}
 		info := fi.Pkg.TypesInfo
-		// iterator items: variables assigned from Iterator.Item()
+		// iterator items: every *badger.Item variable or parameter of the function, except those obtained from
+		// Txn.Get (a fresh item that owns its buffers). Items travel through helpers, callbacks and range-over-func
+		// iterators; judging by type keeps the rule independent of how they travel.
 		items := map[types.Object]bool{}
-		for _, po := range paramObjs(fi) {
-			if po != nil && itemParams[po] {
-				items[po] = true
+		isItemType := func(t types.Type) bool {
+			pt, ok := t.(*types.Pointer)
+			if !ok {
+				return false
 			}
+			nt, ok := pt.Elem().(*types.Named)
+			return ok && nt.Obj().Name() == "Item" && nt.Obj().Pkg() != nil && strings.Contains(nt.Obj().Pkg().Path(), "dgraph-io/badger")
 		}
+		fromGet := map[types.Object]bool{}
 		ast.Inspect(fi.Decl.Body, func(x ast.Node) bool {
-			if as, ok := x.(*ast.AssignStmt); ok && len(as.Lhs) == 1 && len(as.Rhs) == 1 {
-				if c, ok := ast.Unparen(as.Rhs[0]).(*ast.CallExpr); ok && isBadgerMethod(info, c, "Iterator", "Item") {
+			if as, ok := x.(*ast.AssignStmt); ok && len(as.Rhs) == 1 {
+				if c, ok := ast.Unparen(as.Rhs[0]).(*ast.CallExpr); ok && isBadgerMethod(info, c, "Txn", "Get") {
 					if o := objOf(info, as.Lhs[0]); o != nil {
-						items[o] = true
+						fromGet[o] = true
 					}
 				}
 			}
 			return true
 		})
+		for id, o := range info.Defs {
+			if o == nil || id.Pos() < fi.Decl.Pos() || id.End() > fi.Decl.End() {
+				continue
+			}
+			if v, ok := o.(*types.Var); ok && isItemType(v.Type()) && !fromGet[o] {
+				items[o] = true
+			}
+		}
 		if len(items) == 0 {
-			continue
+			// a function that only calls Iterator.Item() inline
+			has := false
+			ast.Inspect(fi.Decl.Body, func(x ast.Node) bool {
+				if c, ok := x.(*ast.CallExpr); ok && isBadgerMethod(info, c, "Iterator", "Item") {
+					has = true
+				}
+				return !has
+			})
+			if !has {
+				continue
+			}
 		}
 		isItem := func(e ast.Expr) bool {
 			if o := objOf(info, e); o != nil && items[o] {
